@@ -678,7 +678,7 @@ static void pbkdf2_item(size_t pl, size_t sl, int rounds, size_t kl, int a)
     if (g_batch == 0 && g_item == 1) vf_sample("pbkdf2: password %zu bytes, salt %zu, %d rounds, %zu output bytes", pl, sl, rounds, kl);
     psPkcs5Pbkdf2(xp.p, (uint32) pl, xs.p, (uint32) sl, rounds, xo.p, (uint32) kl);
     cnt(pl > 64 ? "pbkdf2-long-password" : "pbkdf2");
-    if (memcmp(xo.p, ref, kl)) V("pbkdf2", "wrong-output", "password %zu bytes salt %zu rounds %d key %zu: got %s want %s", pl, sl, rounds, kl, hx(xo.p, kl), hx(ref, kl));
+    if (memcmp(xo.p, ref, kl)) V("pbkdf2", pl > 64 ? "wrong-output-long-password" : "wrong-output", "password %zu bytes salt %zu rounds %d key %zu: got %s want %s", pl, sl, rounds, kl, hx(xo.p, kl), hx(ref, kl));
     XB_CHECK(&xo, "pbkdf2");
     vf_distinct("pbkdf2|%zu|%zu|%d|%zu", pl, sl, rounds, kl);
     xb_free(&xp); xb_free(&xs); xb_free(&xo); free(ref);
